@@ -230,6 +230,10 @@ def panic_sites(prog, chk, reach):
             w = D.search_offset_guard(body, s.bb, s.term, s.kind)
             if w:
                 why = ("D3 " if s.kind == "split_at" else "D4 ") + w
+        if why is None and s.kind == "index" and "str" not in s.detail.split(" as ")[0]:
+            w = D.position_index_guard(body, s.bb, s.term)
+            if w:
+                why = "D4 " + w
         if why is None and s.kind == "index" and "str" in s.detail.split(" as ")[0]:
             w = D.str_index_guard(body, s.bb, s.term)
             if w:
